@@ -944,7 +944,8 @@ private theorem count_main (r θ s : ℝ) (hr : 0 < r) (hs0 : 0 < s) (hs : s < 2
   simp only [arcSegmentCount, hc, Gen.FlattenKernels.alphaExpr, Gen.FlattenKernels.countExpr,
     Gen.FlattenKernels.countHandler, evalE, env3]
   have hx2 : (-1:ℝ) ≤ Real.sqrt (2 * r * s - s * s) / r := by linarith
-  simp [hr.ne', handle, hα.ne', not_lt.mpr hx1, not_lt.mpr hx2]
+  have hmin : min (Real.sqrt (2 * r * s - s * s) / r) 1 = Real.sqrt (2 * r * s - s * s) / r := min_eq_left hx1
+  simp [hr.ne', handle, hmin, hα.ne', not_lt.mpr hx1, not_lt.mpr hx2]
 
 /-- key analytic fact: the cosine of the half segment angle computed by the code is `|r - s| / r`
     (on the domain `0 ≤ s (2r - s)` where the square root is defined) -/
@@ -955,7 +956,8 @@ theorem cos_arcsin_sagitta (r s : ℝ) (hr : 0 < r) (hq : 0 ≤ 2 * r * s - s * 
   rw [this, Real.sqrt_sq_eq_abs, abs_div, abs_of_pos hr]
 
 /-- **sagitta_bound**: for every radius `r > 0`, sagitta `s > 0` and span `0 < θ ≤ 2π`,
-    `arc_segment_count(r, θ, s)` returns an integer `n ≥ 1` (never raises) and the sagitta
+    `arc_segment_count(r, θ, s)` - the current formula `asin(min(chord / 2 / r, 1.0)) * 2` with the clamp of
+    commit 677c29f93 - returns an integer `n ≥ 1` (never raises) and the sagitta
     `r (1 - cos (θ / n / 2))` of each of the `n` equal chords is at most `s`; this covers the
     `s > r` branch (where `asin` folds the half angle back) and both exception fall-backs
     (`s > 2r`: `sqrt` raises, chord 0; `s ≥ 2r`: `angle / 0` raises, count 1). -/
@@ -1137,7 +1139,9 @@ theorem tie_tolerances :
     by decide +kernel, by decide +kernel, by decide +kernel, rfl⟩
 
 /-- arc flattening still divides the span into `arc_segment_count` equal parts (`np.linspace(…, count + 1)`),
-    and the arc formulas are the trees `sagitta_bound` is proved about -/
+    and the arc formulas are the trees `sagitta_bound` is proved about, including the clamp `min(…, 1.0)` of the
+    asin argument (fix 677c29f93: without it float rounding near sagitta = radius raised inside `try` and the
+    count fell back to 1; reverting the fix changes `alphaExpr` and re-opens this theorem and `sagitta_bound`) -/
 theorem tie_arc :
     arcFlattening = arcFlatteningKernel ∧
     chordExpr = .mul (.num 2) (.sqrt (.sub (.mul (.mul (.num 2) (.var "radius")) (.var "sagitta"))
